@@ -931,3 +931,67 @@ def header_clauses(prog, chk, want):
             yield_word = okw and not okp
             if yield_word:
                 chk.sample({"header": show_segments(head)}) if hasattr(chk, "sample") else None
+
+
+# ------------------------------------------------------------------------------------------------ owning a builder's attribute
+
+def attr_into_owned(prog, chk, rule="into_owned"):
+    """AttrOrRaw::into_owned: a typed attribute becomes exactly its to_raw() form (type, length and value bytes, copied);
+    a raw attribute keeps type, length and value - so owning a builder does not change what it serialises"""
+    key = M_ + "AttrOrRaw::<'a>::into_owned"
+    body = prog.bodies.get(key)
+    if body is None:
+        chk.fail(rule, "AttrOrRaw::into_owned not found")
+        return
+    adt = prog.adts[M_ + "AttrOrRaw"]
+    vnames = [v["name"] for v in adt["variants"]]
+
+    def dyn_to_raw(c):
+        ln = Lin.var("raw_len")
+        ty = Lin.var("raw_type")
+        c.st.sys.add_range(ln, 0, 65535)
+        c.st.sys.add_range(ty, 0, 65535)
+        for v in (ln, ty):
+            c.st.cells["ghost:q:" + next(iter(v.t))] = Num(v)
+        val = Seq(ln, None, None, None, ("to_raw(attr)", Lin.const(0)))
+        return [(c.st, Struct({0: Struct({0: Struct({0: Num(ty)}), 1: Num(ln)}), 1: Enum("stun_types::data::Data", {1: Struct({0: Struct({0: val})})})}))]
+    from rules.agent_e2 import data_bytes
+    for vn in vnames:
+        def setup(run, st, vn=vn):
+            c1 = run.it.cell_of(run.fr, 1)
+            v = st.cells.get(c1)
+            if isinstance(v, Enum):
+                st.cells[c1] = v.only(vnames.index(vn))
+            st.cells["ghost:arg0"] = st.cells[c1]
+        r = Run(prog, key, track_content=True, setup=setup, def_models={"stun_types::attribute::AttributeWrite::to_raw": dyn_to_raw})
+        if r.error or not r.results:
+            chk.fail(rule, "AttrOrRaw::into_owned|%s|analysis" % vn, body.loc(), r.error or "no return state")
+            continue
+        use_registry(r.it)
+        for st, ret in r.results:
+            problems = []
+            raw = ret.v[next(iter(ret.v))].get(0) if isinstance(ret, Enum) and len(ret.v) == 1 else None
+            if variant_of(prog, ret) != "Raw" or not isinstance(raw, Struct):
+                problems.append("the owned form is %s" % variant_of(prog, ret))
+            else:
+                hdr = raw.get(0)
+                t_ = hdr.get(0).get(0) if isinstance(hdr, Struct) and isinstance(hdr.get(0), Struct) else None
+                l_ = hdr.get(1) if isinstance(hdr, Struct) else None
+                vb = data_bytes(raw.get(1))
+                segs = content_segments(st, vb)
+                if vn == "Attr":
+                    ok = isinstance(t_, Num) and st.sys.entails_eq(t_.e - Lin.var("raw_type")) and isinstance(l_, Num) and st.sys.entails_eq(l_.e - Lin.var("raw_len")) \
+                        and whole(st, segs, "to_raw(attr)", Lin.var("raw_len")) and isinstance(vb, Seq) and st.sys.entails_eq(vb.len - Lin.var("raw_len"))
+                    if not ok:
+                        problems.append("the owned attribute is (type %r, length %r, value %s), not the attribute's to_raw() form" % (t_, l_, show_segments(segs)))
+                else:
+                    a0 = st.cells.get("ghost:arg0")
+                    r0 = a0.v[next(iter(a0.v))].get(0) if isinstance(a0, Enum) and len(a0.v) == 1 else None
+                    h0 = r0.get(0) if isinstance(r0, Struct) else None
+                    same_hdr = isinstance(h0, Struct) and isinstance(hdr, Struct) and isinstance(t_, Num) and isinstance(h0.get(0).get(0), Num) and \
+                        st.sys.entails_eq(t_.e - h0.get(0).get(0).e) and isinstance(l_, Num) and isinstance(h0.get(1), Num) and st.sys.entails_eq(l_.e - h0.get(1).e)
+                    if not same_hdr:
+                        problems.append("type / length of a raw attribute change")
+                    if segs is None or not (len(segs) == 1 and segs[0][0] == "win" and str(segs[0][1]).startswith("in:") and st.sys.entails_eq(segs[0][2])):
+                        problems.append("the value of a raw attribute is %s, not its own bytes" % show_segments(segs))
+            chk.ob(rule, "AttrOrRaw::into_owned|%s" % vn, not problems, body.loc(), detail="; ".join(problems), how="E2 return state with content identities")
